@@ -3331,10 +3331,17 @@ func UnmarshalPathAttributes(values []*api.Attribute) ([]bgp.PathAttributeInterf
 
 // MarshalSRBSID marshals SR Policy Binding SID Sub TLV structure
 func MarshalSRBSID(bsid *bgp.TunnelEncapSubTLVSRBSID) (*api.SRBindingSID, error) {
-	s := &api.SRBindingSID{
-		Sid: make([]byte, len(bsid.BSID.Value)),
+	s := &api.SRBindingSID{}
+	if bsid.BSID != nil {
+		s.Sid = make([]byte, len(bsid.BSID.Value))
+		copy(s.Sid, bsid.BSID.Value)
+		if len(s.Sid) == 4 {
+			// The native value is the MPLS label field (label << 12, as on the
+			// wire); the API carries the label value, which UnmarshalSRBSID
+			// (NewBSID) shifts back into the field.
+			binary.BigEndian.PutUint32(s.Sid, binary.BigEndian.Uint32(bsid.BSID.Value)>>12)
+		}
 	}
-	copy(s.Sid, bsid.BSID.Value)
 	s.SFlag = bsid.Flags&0x80 == 0x80
 	s.IFlag = bsid.Flags&0x40 == 0x40
 	return s, nil
